@@ -191,3 +191,23 @@ func instrPos(p *Prog, in ssa.Instruction) string {
 	}
 	return "?"
 }
+
+// instrInLoop: the instruction's block lies on a cycle of the CFG.
+func instrInLoop(in ssa.Instruction) bool {
+	b := in.Block()
+	seen := map[*ssa.BasicBlock]bool{}
+	work := append([]*ssa.BasicBlock{}, b.Succs...)
+	for len(work) > 0 {
+		c := work[len(work)-1]
+		work = work[:len(work)-1]
+		if c == b {
+			return true
+		}
+		if seen[c] {
+			continue
+		}
+		seen[c] = true
+		work = append(work, c.Succs...)
+	}
+	return false
+}
